@@ -117,6 +117,14 @@ class GotranPythonCodePrinter(PythonCodePrinter):
     def _print_Or(self, expr):
         return self._print_logical("logical_or", expr.args)
 
+    def _print_re(self, expr):
+        # All model quantities are real. (sympy introduces re and im when it cannot
+        # prove that, e.g. abs(exp(x**0.5)) becomes exp(re(x**0.5)))
+        return self._print(expr.args[0])
+
+    def _print_im(self, expr):
+        return self._print(sympy.S.Zero)
+
     def _print_Min(self, expr):
         # numpy.min(a, b) would take b as the axis. Use the element-wise function
         value = self._print(expr.args[-1])
